@@ -118,7 +118,7 @@ void runC07(const Scenario& sc, vf::Result& res) {
     g_sampleState = sc.seed * 2654435761ULL + 1;
     sess::evalObserver = observer;
     sess::History h;
-    sess::runSession(sc, h, res);
+    harness_session_run(&sc, &h, &res);
     sess::evalObserver = nullptr;
     uci::Model m;
     uci::buildModel(h, m);
